@@ -119,6 +119,28 @@ def build(cfg, rs):
     soft = {tasks[i]: [] for i in tasks}
     for i, j, kind in cfg['edges']:
         (hard if kind == 'hard' else soft)[tasks[i]].append(tasks[j])
+    nested = cfg.get('nested')
+    if nested:
+        # the hard graph is given with nested DepGraph nodes (groups of tasks); cfg['edges'] holds the flat edges the
+        # documented grafting rule yields (terminal nodes of a group depend on its dependencies, its dependees
+        # depend on its initial nodes) -- see conf_sched.nested_cfg
+        units = {}
+        for g, members in enumerate(nested['groups']):
+            sub = {tasks[i]: [] for i in members}
+            for i, j in nested['intra']:
+                if i in members and j in members:
+                    sub[tasks[i]].append(tasks[j])
+            units['g%d' % g] = _DepGraph.from_dependency_dictionary(sub)
+        for i in tasks:
+            if not any(i in m for m in nested['groups']):
+                units['t%d' % i] = tasks[i]
+        hard_graph = _DepGraph()
+        for name in nested['unit_order']:
+            hard_graph.add_node(units[name])
+        for a, b in nested['uedges']:
+            hard_graph.add_dependency(units[a], on=units[b])
+        soft_graph = _DepGraph.from_dependency_dictionary(soft)
+        return tasks, hard_graph, soft_graph
     hard_graph = _DepGraph.from_dependency_dictionary(hard)
     soft_graph = _DepGraph.from_dependency_dictionary(soft)
     return tasks, hard_graph, soft_graph
@@ -378,7 +400,7 @@ def record(cfg, strategy, max_steps=None, hook=None):
     trace = dict(cfg=dict(n=cfg['n'], workers=cfg['workers'], edges=[list(e) for e in cfg['edges']],
                           outcome=[cfg['outcome'].get(str(i), 'ok') for i in range(1, cfg['n'] + 1)],
                           init=[(cfg.get('init') or {}).get(str(i), 'ABSENT') for i in range(1, cfg['n'] + 1)],
-                          order=order, calls=cfg.get('calls', 1)),
+                          order=order, calls=cfg.get('calls', 1), nested=cfg.get('nested') or {}),
                  events=events, verdict=ex.ctl.verdict, raised=repr(ex.raised) if ex.raised is not None else '',
                  schedule=[t for t, _ in ex.ctl.trace])
     return ex, trace
